@@ -69,9 +69,44 @@ func makeCtx(kind string, dl time.Duration) (context.Context, context.CancelFunc
 		return context.WithCancel(context.Background())
 	case "withdeadline":
 		return context.WithTimeout(context.Background(), dl)
+	case "foreign":
+		// a context type of the application's own (merged contexts, a context bound to a shutdown signal): the
+		// context package cannot see through it, so every context derived from it needs a goroutine of its
+		// own until its cancel function is called
+		inner, cancel := context.WithCancel(context.Background())
+		return foreignCtx{inner}, cancel
 	}
 	panic("ctx kind")
 }
+
+// bubbleGoroutines counts the goroutines of the calling goroutine's synctest bubble (the process has others
+// that come and go) and returns their stacks.
+func bubbleGoroutines() (int, string) {
+	buf := make([]byte, 1<<18)
+	dump := string(buf[:runtime.Stack(buf, true)])
+	blocks := strings.Split(dump, "\n\n")
+	tag := ""
+	if i := strings.Index(blocks[0], "synctest bubble "); i >= 0 {
+		tag = blocks[0][i:]
+		tag = tag[:strings.IndexByte(tag, ']')+1]
+	}
+	if tag == "" {
+		return 0, ""
+	}
+	n := 0
+	var mine []string
+	for _, b := range blocks {
+		if head, _, _ := strings.Cut(b, "\n"); strings.Contains(head, tag) {
+			n++
+			mine = append(mine, b)
+		}
+	}
+	return n, strings.Join(mine, "\n\n")
+}
+
+type foreignCtx struct{ context.Context }
+
+func (f foreignCtx) Value(key interface{}) interface{} { return nil }
 
 type tlsWrap struct{ net.Conn }
 
@@ -84,14 +119,16 @@ type result struct {
 }
 
 type outcome struct {
-	res          result
-	notReturned  bool
-	ops          int
-	log          []string
-	bubblePanic  string
-	lateEvents   []string
-	ctxErr       error
-	obtainedConn bool
+	res           result
+	notReturned   bool
+	ops           int
+	log           []string
+	bubblePanic   string
+	lateEvents    []string
+	ctxErr        error
+	obtainedConn  bool
+	gDump         string
+	gBase, gAfter int // goroutines before Dial was started / after it returned (bubble idle both times)
 	// insd scenarios: the watcher was parked inside SetDeadline / Dial returned while it was still there
 	watcherParked bool
 	earlyReturn   bool
@@ -223,6 +260,8 @@ func runScenario(t *testing.T, s scen) (o outcome) {
 			url = "wss://c20.example/x"
 		}
 		resCh := make(chan result, 1)
+		synctest.Wait()
+		o.gBase, _ = bubbleGoroutines()
 		go func() {
 			cn, br, _, err := d.Dial(ctx, url)
 			resCh <- result{conn: cn, br: br, err: err, returnedAt: time.Since(start), snap: c.snap()}
@@ -287,6 +326,13 @@ func runScenario(t *testing.T, s scen) (o outcome) {
 			c.forceClose()
 			cancel()
 			o.res = <-resCh
+		}
+		if !o.notReturned {
+			synctest.Wait()
+			o.gAfter, o.gDump = bubbleGoroutines()
+			if o.gAfter <= o.gBase {
+				o.gDump = ""
+			}
 		}
 		if s.Place == "afterreturn" && s.Event == "cancel" {
 			cancel()
@@ -446,6 +492,10 @@ func judge(c *mon.C, s scen, o outcome) bool {
 		}
 	}
 	// R5: the watcher goroutine is gone (see runScenario)
+	if !s.RealTLS && !o.notReturned && o.gAfter > o.gBase {
+		c.Fail("goroutine-left/"+cls, fmt.Sprintf("%d goroutine(s) more than before exist after Dial returned (the caller's context is still live: nothing Dial started may go on waiting for it)", o.gAfter-o.gBase)+"\n"+o.gDump, det())
+		return false
+	}
 	if o.bubblePanic != "" {
 		c.Fail("goroutine-leak/"+cls, "the bubble could not finish after Dial returned (a goroutine started by Dial is still blocked): "+o.bubblePanic, det())
 		return false
@@ -480,7 +530,7 @@ var (
 
 func buildScenarios(t *testing.T) []scen {
 	scenOnce.Do(func() {
-		ctxAll := []string{"background", "todo", "withvalue", "withcancel", "withdeadline"}
+		ctxAll := []string{"background", "todo", "withvalue", "withcancel", "withdeadline", "foreign"}
 		far := time.Hour
 		for _, wbuf := range []int{4096, 100, 60} {
 			for _, chunks := range []int{1, 2, 5} {
